@@ -39,6 +39,15 @@ func judge(c Case, w *vkit.W) {
 		}
 	}()
 	s := size.Size(c.S)
+	if w.Flip() {
+		// the first rendering of this size in the process may just as well go into a caller buffer that already holds text,
+		// and other marshalling calls may come before the renderings
+		_, _ = size.DefaultFormatter([]byte("quota: "), s, size.FormatPretty)
+		_, _ = size.DefaultFormatter(append(make([]byte, 0, 64), "used "...), s, 0)
+		_, _ = size.DefaultFormatter([]byte("<b>"), s, size.FormatPretty|size.FormatHTML)
+		_, _ = s.MarshalJSON()
+		_, _ = s.MarshalText()
+	}
 	val, unit := s.Shorten()
 	k, known := binaryUnits[unit]
 	if !known {
